@@ -7,6 +7,7 @@ mod c06;
 mod c06msg;
 mod c07;
 mod c08;
+mod c08boot;
 mod boundary;
 mod c01;
 mod c17;
